@@ -262,7 +262,9 @@ func (e *env) processPuts() {
 					name = "accountRow"
 					// [type:1][rawLen:4][pubLen:4][pubEnc][privLen:4][privEnc]
 					v := r.val
-					le := func(o int) int { return int(uint32(v[o]) | uint32(v[o+1])<<8 | uint32(v[o+2])<<16 | uint32(v[o+3])<<24) }
+					le := func(o int) int {
+						return int(uint32(v[o]) | uint32(v[o+1])<<8 | uint32(v[o+2])<<16 | uint32(v[o+3])<<24)
+					}
 					if len(v) > 13 {
 						l1 := le(5)
 						if 9+l1+4 <= len(v) {
